@@ -12,6 +12,7 @@ Import ListNotations.
 Open Scope string_scope.
 Open Scope list_scope.
 
+From MV Require Import Cfg.WarnTableProofs.
 (* ---- static: every warning-emitting call site of the package (bound: the sites present in the
    regenerated table, [length sites] rows) ---- *)
 
@@ -19,30 +20,25 @@ Open Scope list_scope.
    subtype ("ref.footnote"), or forwards such a parameter; no site logs an untyped warning; explicit
    suppression tests name catalogue tags; every literal type is dot-free *)
 Theorem C14_sites_typed : forall s, In s sites -> site_ok catalogue s = true.
-Proof. apply forallb_forall. vm_compute. reflexivity. Qed.
+Proof. exact C14_sites_typed_proof. Qed.
 Print Assumptions C14_sites_typed.
 
 (* the two allow-listed untagged docutils-level messages are single call sites: no further
    reporter.warning call hides in the same functions *)
 Theorem C14_untagged_sites_bounded : untagged_sites_bounded sites = true.
-Proof. vm_compute. reflexivity. Qed.
+Proof. exact C14_untagged_sites_bounded_proof. Qed.
 Print Assumptions C14_untagged_sites_bounded.
 
 (* the tags those sites can emit are catalogue tags (myst.<value>) or ref.footnote *)
 Theorem C14_site_tags_in_catalogue : forall s, In s sites -> site_tags_allowed catalogue s = true.
-Proof. apply forallb_forall. vm_compute. reflexivity. Qed.
+Proof. exact C14_site_tags_in_catalogue_proof. Qed.
 Print Assumptions C14_site_tags_in_catalogue.
 
 (* every catalogue member has at least one emission site, except the known dead entries
    (DIRECTIVE_BODY), which are reported in the evidence *)
 Theorem C14_catalogue_emitted :
   forall n, In n (map fst catalogue) -> In n known_dead \/ member_emitted sites n = true.
-Proof.
-  intros n H.
-  assert (E : catalogue_emitted catalogue sites = true) by (vm_compute; reflexivity).
-  unfold catalogue_emitted in E. rewrite forallb_forall in E. specialize (E n H).
-  apply orb_true_iff in E as [E|E]; [left; apply mem_str_In; exact E | right; exact E].
-Qed.
+Proof. exact C14_catalogue_emitted_proof. Qed.
 Print Assumptions C14_catalogue_emitted.
 
 (* every use of create_warning's return value only includes or omits that node, and the node given as
@@ -51,19 +47,11 @@ Print Assumptions C14_catalogue_emitted.
    refnode.children after appending the warning to refnode) *)
 Theorem C14_result_use_benign_partial : forall s, In s sites ->
   pair_in known_side_effect_sites (s_file s) (s_func s) = false -> use_benign s = true.
-Proof.
-  assert (E : forallb (fun s => pair_in known_side_effect_sites (s_file s) (s_func s) || use_benign s)
-                      sites = true) by (vm_compute; reflexivity).
-  intros s Hs Hk. rewrite forallb_forall in E. specialize (E s Hs). rewrite Hk in E. exact E.
-Qed.
+Proof. exact C14_result_use_benign_partial_proof. Qed.
 Print Assumptions C14_result_use_benign_partial.
 
 Theorem C14_result_use_benign_refuted : exists s, In s sites /\ use_benign s = false.
-Proof.
-  assert (E : existsb (fun s => negb (use_benign s)) sites = true) by (vm_compute; reflexivity).
-  apply existsb_exists in E as [s [Hs Hb]]. exists s. split; [exact Hs|].
-  apply negb_true_iff. exact Hb.
-Qed.
+Proof. exact C14_result_use_benign_refuted_proof. Qed.
 Print Assumptions C14_result_use_benign_refuted.
 
 (* ---- dynamic: suppression ---- *)
@@ -150,7 +138,7 @@ Theorem C14_source_refines_model :
      cw_src fe S e has_node has_line =
      (fst (create_warning fe S e), snd (create_warning fe S e),
       match snd (create_warning fe S e) with Some _ => we_placed e | None => false end)).
-Proof. split; [exact is_suppressed_src_eq | exact create_warning_src_eq]. Qed.
+Proof. exact C14_source_refines_model_proof. Qed.
 Print Assumptions C14_source_refines_model.
 
 (* _is_suppressed_warning as written in the source = the documented rule (dot-free type) = Sphinx's *)
@@ -163,9 +151,7 @@ Print Assumptions C14_mirror_agrees_with_sphinx_src.
 Theorem C14_suppressed_src_meaning : forall ty sub S, nodot ty = true ->
   (is_suppressed_src (Some ty) sub S = true <->
    exists w, In w S /\ (w = ty \/ w = ty ++ c_dot :: sub \/ w = ty ++ [c_dot; c_star])).
-Proof.
-  intros ty sub S H. rewrite (is_suppressed_src_spec ty sub S H). apply tag_matches_iff.
-Qed.
+Proof. exact C14_suppressed_src_meaning_proof. Qed.
 Print Assumptions C14_suppressed_src_meaning.
 
 (* suppression is exact for parses that use the source's create_warning: full coupled statement, and
@@ -174,10 +160,7 @@ Theorem C14_suppress_exact_src : forall fe S items,
   forallb item_type_nodot items = true ->
   run_src fe S items = strip_coupled S (run_src fe [] items) /\
   (forallb xref_guard items = true -> run_src fe S items = strip S (run_src fe [] items)).
-Proof.
-  intros fe S items H. split; [apply run_src_suppress_coupled; exact H|].
-  intro G. apply run_src_suppress_exact; assumption.
-Qed.
+Proof. exact C14_suppress_exact_src_proof. Qed.
 Print Assumptions C14_suppress_exact_src.
 
 (* non-vacuity: two warnings and other output, one tag suppressed by "myst.header" *)
